@@ -580,9 +580,10 @@ def models():
                 scalars=[S_42], qn=7, tn=7, an=8, rootk='m', nodup=True,
                 aliask=('m',), cyc=False, rtypes=[]))
     # ---- objects nested in objects of the same class, with a sweeten hook --------
-    tf = C('Tf', [P('v', INT), P('sub', Opt(K('Tf')), ['null'])],
+    tg = C('Tg', [])
+    tf = C('Tf', [P('v', INT), P('sub', Opt(K('Tg')), ['null'])], bases=['Tg'],
            swe=['set_attr', 'k', 'str', 'abc'])
-    ms.append(M('treeswe', [tf], [K('Tf')], keys=['v', 'sub', 'k'],
+    ms.append(M('treeswe', [tg, tf], [K('Tf')], keys=['v', 'sub', 'k'],
                 scalars=[S_42], family='dump', qn=1, tn=1, qo=4, to=5,
                 rtypes=[]))
     # ---- _yatiml_extra declared before the optional parameters --------------------
